@@ -135,6 +135,48 @@ def gen3(files):
     return out
 
 
+SIBLINGS = [("first_element_child", "last_element_child"), ("last_element_child", "first_element_child"), ("strip_suffix", "strip_prefix"),
+            ("is_some()", "is_none()"), ("is_none()", "is_some()"), (".any(", ".all("), (".all(", ".any("), (".position(", ".rposition("),
+            (".find(", ".rfind("), ("saturating_add", "wrapping_add"), (".is_empty()", ".len() == 1"), ("unwrap_or(false)", "unwrap_or(true)"),
+            (".contains(", ".starts_with("), ("contains_key", "contains_key_not"), (".or_insert(", ".or_insert_with(Default::default); let _ = ("),
+            ("TokenKind::Loop", "TokenKind::While"), ("TokenKind::While", "TokenKind::Loop"), ("TokenKind::Semi", "TokenKind::Comma"), ("TokenKind::Comma", "TokenKind::Semi"),
+            ("TokenKind::LParen", "TokenKind::RParen"), ("TokenKind::RParen", "TokenKind::LParen"), ("TokenKind::Eol", "TokenKind::Eof"), ("TokenKind::Eof", "TokenKind::Eol"),
+            ("TokenKind::Equal", "TokenKind::NotEqual"), ("TokenKind::Ident", "TokenKind::DecInt"), ("TokenKind::End", "TokenKind::Eol"), ("TokenKind::Repeat", "TokenKind::Loop"),
+            ("HeaderTokenKind::Eol", "HeaderTokenKind::WS"), ("SignalType::Input", "SignalType::Bidirectional"), ("SignalType::Bidirectional", "SignalType::Input"),
+            ("OutputEntryIndex::None", "OutputEntryIndex::Output(0)"), ("Ok(None)", "Ok(Some(Default::default()))"), ("return Ok(None);", "continue;"),
+            ("\"c\" | \"C\"", "\"c\""), ("\"x\" | \"X\"", "\"X\""), ("\"z\" | \"Z\"", "\"z\""), ("radix = 16", "radix = 10"), ("sort_by", "sort_unstable_by"),
+            ("a.1.start.cmp(&b.1.start)", "b.1.start.cmp(&a.1.start)"), (".start..", ".end.."), ("span.start", "span.end"), ("span.end", "span.start")]
+
+
+def gen4(files):
+    """Fourth operator set: sibling methods / enum variants swapped, string literals changed."""
+    muts = []
+    for f in files:
+        src = open(os.path.join("/repo", f)).read()
+        cut = src.find("#[cfg(test)]\nmod ")
+        body = src if cut < 0 else src[:cut]
+        for ln, line in enumerate(body.split("\n")):
+            st = line.strip()
+            if not st or st.startswith(("//", "#[", "#![", "use ", "///")):
+                continue
+            for a, b_ in SIBLINGS:
+                i = line.find(a)
+                while i >= 0:
+                    muts.append({"file": f, "line": ln + 1, "old": line, "new": line[:i] + b_ + line[i + len(a):], "rule": "%s -> %s" % (a, b_)})
+                    i = line.find(a, i + 1)
+            if "write!" in line or "writeln!" in line or "format!" in line or "expect(" in line or "panic!" in line or "unreachable!" in line or "todo!" in line:
+                continue
+            for m in re.finditer(r'"([A-Za-z_][A-Za-z_0-9]*)"', line):
+                muts.append({"file": f, "line": ln + 1, "old": line, "new": line[:m.start(1)] + m.group(1) + "X" + line[m.end(1):], "rule": "string literal + X"})
+    seen, out = set(), []
+    for m in muts:
+        k = (m["file"], m["line"], m["new"])
+        if k not in seen and m["new"] != m["old"]:
+            seen.add(k)
+            out.append(m)
+    return out
+
+
 def sh(cmd, cwd=None, env=None, timeout=900):
     """Run in its own process group with an address-space limit; on timeout kill the whole group
     (a mutant can loop forever or allocate without bound inside the test binary)."""
@@ -221,7 +263,7 @@ def main():
             files = a.pop(0).split(",")
         elif x == "--out":
             outp = a.pop(0)
-        elif x in ("--ops2", "--ops3"):
+        elif x in ("--ops2", "--ops3", "--ops4"):
             pass
     if files is None:
         files = []
@@ -230,7 +272,7 @@ def main():
                 if f.endswith(".rs") and f not in ("tests.rs",) and "/tests" not in dp:
                     files.append(os.path.relpath(os.path.join(dp, f), "/repo"))
         files.sort()
-    muts = gen3(files) if "--ops3" in sys.argv else (gen2(files) if "--ops2" in sys.argv else gen(files))
+    muts = gen4(files) if "--ops4" in sys.argv else gen3(files) if "--ops3" in sys.argv else (gen2(files) if "--ops2" in sys.argv else gen(files))
     if limit:
         muts = muts[:limit]
     print("%d mutants over %d files" % (len(muts), len(files)))
